@@ -1,0 +1,26 @@
+//go:build verif
+// +build verif
+
+package store
+
+import "path/filepath"
+
+// VerifScanFile runs the unexported FileQueue.scanFile (the start-up replay of
+// tmp.data) on an arbitrary file with a detached queue: the async bitcask
+// writer is NOT started, so every record the scan delivers stays in the
+// write channel and is returned here in delivery order.
+// Returns: delivered records, the offset returned by scanFile, the queue's
+// Offset field after the scan, and scanFile's error (ErrEOF at a clean end).
+func VerifScanFile(path string) (recs []*Inject, retOffset int64, queueOffset int64, err error) {
+	queue := NewFileQueue(filepath.Dir(path), nil, nil)
+	retOffset, err = queue.scanFile(path, 0)
+	queueOffset = queue.Offset
+	for {
+		select {
+		case op := <-queue.SyncFileDB.WriteChan:
+			recs = append(recs, op)
+		default:
+			return
+		}
+	}
+}
